@@ -364,14 +364,6 @@ def gd_defects(group, guards, exceptions=()):
         rhs_exprs = rhs if isinstance(rhs, list) else [rhs]
         for r in rhs_exprs:
             r_e = r[1] if isinstance(r, tuple) else r
-            dens = ([r[1]] if isinstance(r, tuple) else []) + denominators(r_e)
-            for dn in dens:
-                for root in zero_roots(dn):
-                    g = guards.get(root)
-                    if g is None:
-                        continue
-                    if not implies(f, g):
-                        out.append((i, 'division by `%s` under a mask that does not imply its magnitude guard' % src(strip(dn))[:60], root))
             if group.kind == 'store':
                 for n in walk_outside_upd(r_e):
                     if isinstance(n, ast.Subscript):
@@ -379,3 +371,185 @@ def gd_defects(group, guards, exceptions=()):
                         if g is not None and not equivalent(f, g):
                             out.append((i, 'operand `%s` is gathered with a different mask than the store' % src(n)[:60], None))
     return out
+
+
+# ------------------------------------------------------------------ context-propagating analysis of one expression
+
+SIGN_FUNCS = {'torch.sign', 'torch.sgn'}
+TRANSPARENT_FUNCS = {'torch.nan_to_num'}
+NORM_FUNCS = {'torch.norm', 'torch.linalg.norm', 'torch.linalg.vector_norm'}
+
+
+def zero_root_exprs(e):
+    e = strip(e)
+    if isinstance(e, ast.Constant):
+        return []
+    if isinstance(e, ast.BinOp):
+        if isinstance(e.op, ast.Mult):
+            return zero_root_exprs(e.left) + zero_root_exprs(e.right)
+        if isinstance(e.op, (ast.Pow, ast.Div)):
+            return zero_root_exprs(e.left)
+        return []
+    return [e]
+
+
+def is_norm_root(e):
+    e = strip(e)
+    if isinstance(e, ast.Call):
+        if dotted(e.func) in NORM_FUNCS:
+            return True
+        if isinstance(e.func, ast.Attribute) and e.func.attr == 'norm' and not (dotted(e.func) or '').startswith('torch.'):
+            return True
+    return False
+
+
+def vanish_roots(e):
+    """dumps of quantities whose exact vanishing makes e vanish; sign(x) vanishes with x, pm(x) never does"""
+    while True:
+        if isinstance(e, ast.Call) and dotted(e.func) in TRANSPARENT_FUNCS and e.args:
+            e = e.args[0]
+        elif isinstance(e, ast.Call) and isinstance(e.func, ast.Attribute) and e.func.attr == 'nan_to_num' \
+                and not (dotted(e.func) or '').startswith('torch.'):
+            e = e.func.value
+        else:
+            break
+    if isinstance(e, ast.Call) and dotted(e.func) in SIGN_FUNCS and e.args:
+        return vanish_roots(e.args[0])
+    if isinstance(e, ast.Call) and isinstance(e.func, ast.Attribute) and e.func.attr in ('sign', 'sgn') and not (dotted(e.func) or '').startswith('torch.'):
+        return vanish_roots(e.func.value)
+    if isinstance(e, ast.Call) and dotted(e.func) == 'pm':
+        return set()
+    if isinstance(e, ast.Constant):
+        return set()
+    if isinstance(e, ast.UnaryOp) and isinstance(e.op, (ast.USub, ast.UAdd)):
+        return vanish_roots(e.operand)
+    if isinstance(e, ast.BinOp):
+        if isinstance(e.op, ast.Mult):
+            return vanish_roots(e.left) | vanish_roots(e.right)
+        if isinstance(e.op, (ast.Div, ast.Pow)):
+            return vanish_roots(e.left)
+        return set()
+    if isinstance(e, ast.Subscript) and formula(e.slice) is not None:
+        return vanish_roots(e.value)
+    s = strip(e)
+    if s is not e:
+        return vanish_roots(s)
+    return {dump(e)}
+
+
+def _and(a, b):
+    if a is None:
+        return b
+    if b is None:
+        return a
+    return ('and', a, b)
+
+
+def context_defects(expr, guards):
+    """walk expr carrying the conjunction of the masks under which each sub-expression is selected.
+    -> list of (kind, node, message, root dump)   kind: 'div' | 'vanish' """
+    out = []
+
+    def check_div(d, ctx, node):
+        for r in zero_root_exprs(d):
+            key = dump(r)
+            g = guards.get(key)
+            if g is None:
+                if is_norm_root(r):
+                    out.append(('div', node, 'division by `%s`, which is exactly zero at the identity / zero vector, is not selected by any '
+                                'magnitude guard' % src(strip(d))[:50], key, ctx))
+                continue
+            if ctx is None or not implies(ctx, g):
+                out.append(('div', node, 'division by `%s` is not confined to the branch where its magnitude guard holds' % src(strip(d))[:50], key, ctx))
+
+    def check_vanish(val, ctx, node):
+        if ctx is None:
+            return
+        roots = vanish_roots(val)
+        for key, g in guards.items():
+            if key in roots and implies(ctx, ('not', g)):
+                out.append(('vanish', node, 'the branch selected where `%s` is (near) zero is multiplied by a factor that vanishes exactly at '
+                            'zero (sign(0) = 0): the branch value collapses at the very point it was written for' % _short(key), key, ctx))
+
+    def walk(e, ctx):
+        if isinstance(e, ast.Call):
+            d = dotted(e.func)
+            if d == 'torch.where' and len(e.args) == 3:
+                f = formula(e.args[0])
+                walk(e.args[0], ctx)
+                if f is not None:
+                    ca, cb = _and(ctx, f), _and(ctx, ('not', f))
+                    check_vanish(e.args[1], ca, e)
+                    check_vanish(e.args[2], cb, e)
+                    walk(e.args[1], ca)
+                    walk(e.args[2], cb)
+                    return
+            if d == '$upd' and len(e.args) == 3:
+                walk(e.args[0], ctx)
+                m = e.args[1].slice if isinstance(e.args[1], ast.Subscript) else None
+                f = formula(m) if m is not None else None
+                c2 = _and(ctx, f) if f is not None else ctx
+                if f is not None:
+                    check_vanish(e.args[2], c2, e)
+                walk(e.args[2], c2)
+                return
+            if d in ('torch.div', 'torch.true_divide') and len(e.args) == 2:
+                check_div(e.args[1], ctx, e)
+            if isinstance(e.func, ast.Attribute) and e.func.attr in ('reciprocal', 'rsqrt') and not (d or '').startswith('torch.'):
+                check_div(e.func.value, ctx, e)
+        if isinstance(e, ast.BinOp) and isinstance(e.op, (ast.Mult, ast.Div)):
+            fs = _factors(e)
+            mfs = [formula(x) for x in fs if not isinstance(x, tuple) and formula(x) is not None]
+            c2 = ctx
+            for f in mfs:
+                c2 = _and(c2, f)
+            rest = [x for x in fs if isinstance(x, tuple) or formula(x) is None]
+            if mfs:
+                prod = None
+                for x in rest:
+                    if not isinstance(x, tuple):
+                        prod = x if prod is None else ast.BinOp(prod, ast.Mult(), x)
+                if prod is not None:
+                    check_vanish(prod, c2, e)
+            for x in rest:
+                if isinstance(x, tuple):
+                    check_div(x[1], c2, e)
+                    walk(x[1], c2)
+                else:
+                    walk(x, c2)
+            for x in fs:
+                if not isinstance(x, tuple) and formula(x) is not None:
+                    walk_atoms(x, ctx)
+            return
+        if isinstance(e, ast.BinOp) and isinstance(e.op, ast.Pow):
+            k = e.right
+            if isinstance(k, ast.UnaryOp) and isinstance(k.op, ast.USub) and isinstance(k.operand, ast.Constant):
+                check_div(e.left, ctx, e)
+        if isinstance(e, ast.Subscript):
+            f = formula(e.slice)
+            if f is not None:
+                walk(e.value, _and(ctx, f))
+                return
+        for c in ast.iter_child_nodes(e):
+            if isinstance(c, ast.expr):
+                walk(c, ctx)
+
+    def walk_atoms(m, ctx):
+        # comparison operands are evaluated everywhere (they define the masks); they contain no guarded divisions by construction
+        for n in ast.walk(m):
+            if isinstance(n, ast.Compare):
+                walk(n.left, ctx)
+
+    walk(expr, None)
+    # de-duplicate
+    seen, res = set(), []
+    for k, node, msg, root, ctx in out:
+        key = (k, msg, root)
+        if key not in seen:
+            seen.add(key)
+            res.append((k, node, msg, root, ctx))
+    return res
+
+
+def _short(d):
+    return d if len(d) < 60 else d[:57] + '...'
